@@ -73,7 +73,7 @@ def make_election(rng, o=None):
         for c in range(cps):
             county = f"{si + 10:02d}{c + 1:03d}"
             cls = classes[int(rng.integers(0, n_class))]
-            ceff = rng.normal(0, 0.04)
+            ceff = rng.normal(0, 0.04) * o.get("county_effect_scale", 1.0)
             n_here = 1 if geo_county else max(1, int(per_county + rng.integers(-1, 2)))
             # a county is split over one or two districts
             dists = [choice(rng, pool)]
@@ -105,6 +105,9 @@ def make_election(rng, o=None):
                     e1, e2 = rng.normal(0, noise_scale), rng.normal(0, noise_scale / 2)
                 elif noise == "t2":
                     e1, e2 = rng.standard_t(2) * noise_scale / 2, rng.standard_t(2) * noise_scale / 4
+                elif noise == "xhetero":  # spread depends on the covariate (still i.i.d. across units)
+                    s = noise_scale * (0.3 + abs(x1))
+                    e1, e2 = rng.normal(0, s), rng.normal(0, s / 2)
                 else:
                     s = noise_scale * (1 + 3 * (bt < 500))
                     e1, e2 = rng.normal(0, s), rng.normal(0, s / 2)
